@@ -189,6 +189,23 @@ Proof.
     split; [eexists; reflexivity|]. right. simpl. repeat split; auto. lia.
 Qed.
 
+(** ** Values() returns a value: whatever the caller does with the result, the queue is unchanged,
+    and a history with Values calls inserted anywhere gives the same other outputs *)
+
+Lemma sq_values_step q : sq_step V zero eqb q SValues = Ok (q, SOVals (sq_values V q)).
+Proof. reflexivity. Qed.
+
+Lemma sq_values_transparent ops1 ops2 q :
+  sq_run_from V zero eqb q (ops1 ++ SValues :: ops2)
+  = bind (sq_run_from V zero eqb q ops1) (fun r1 =>
+    bind (sq_run_from V zero eqb (fst r1) ops2) (fun r2 =>
+      Ok (fst r2, snd r1 ++ SOVals (sq_values V (fst r1)) :: snd r2))).
+Proof.
+  unfold sq_run_from. rewrite run_ops_app.
+  destruct (run_ops (sq_step V zero eqb) q ops1) as [[q1 o1]| |]; simpl; auto.
+  destruct (run_ops (sq_step V zero eqb) q1 ops2) as [[q2 o2]| |]; reflexivity.
+Qed.
+
 (** ** Contains: the first position holding an [eqb]-equal value, among all values ever enqueued *)
 
 Lemma first_index_spec l v : forall i, 0 <= i ->
